@@ -41,6 +41,8 @@ def owners(op, clause, e=None, nbuf0=3):
         o |= {"C08", "C09"}              # the references of a copy are references: valid, in their buffer, null stays null
     if op in ("new", "copy") and clause.startswith("ref:new-target-"):
         o |= {"C05"}          # a referent written by the construction does not decode to the value it was built from / is malformed
+    if (op == "new" and e is not None and "xobject" in str(e.get("form", "")) and clause.startswith(("read:", "decode:", "fmt:", "frame:", "size:", "nest:"))):
+        o |= {"C09"}          # a part built FROM AN XOBJECT (a struct, an array, a String object) is a copy-construction of that part
     if op == "new" and (clause.startswith("read:") or clause.startswith("ref:new-target-value")):
         o |= {"C01"}          # a nested accessor of the object just built does not return the value it was built from
     return o
